@@ -32,9 +32,9 @@
 #include <unistd.h>
 #include <utf8proc.h>
 
+#include <pthread.h>
 /* DRV_MT: several threads drive the library at once, each with its own driver state */
 #ifdef DRV_MT
-#include <pthread.h>
 #include <link.h>
 #define TLS __thread
 #ifndef DRV_NO_STACKSWITCH
@@ -795,9 +795,22 @@ static void call_body(void) {
     }
 }
 
+/* configuration calls may be made on a thread of their own ("inject SET other", "enable N other"): what they
+   configure is the library, not the calling thread */
+static bool on_other_thread = false;
+#ifndef DRV_MT
+static void* call_body_thread(void* arg) { (void)arg; call_body(); return NULL; }
+#endif
 static void api_call(bool on_stack) {
     nev = 0; env.alloc_no = 0; nresidue = 0;
     in_api = 1;
+#ifndef DRV_MT
+    if (on_other_thread && !on_stack) {
+        pthread_t t;
+        on_other_thread = false;
+        if (pthread_create(&t, NULL, call_body_thread, NULL) == 0) pthread_join(t, NULL); else call_body();
+    } else
+#endif
     if (on_stack) run_call(call_body); else call_body();
     in_api = 0;
     if (on_stack) scan_stack();
@@ -1022,6 +1035,7 @@ static void run_script(FILE* in) {
             static polyseed_dependency scratch;
             scratch = make_deps(tok[1]);
             C.op = OP_INJECT; C.deps = &scratch;
+            on_other_thread = nt > 2 && !strcmp(tok[2], "other");
             fprintf(out, "{\"e\":\"Begin\",\"op\":\"Inject\",\"set\":\"%s\"", tok[1]); eol();
             api_call(false);
             memset(&scratch, 0x5C, sizeof scratch);
@@ -1030,6 +1044,7 @@ static void run_script(FILE* in) {
         }
         else if (!strcmp(op, "enable")) {
             C.op = OP_ENABLE; C.u = (unsigned)strtoul(tok[1], NULL, 10);
+            on_other_thread = nt > 2 && !strcmp(tok[2], "other");
             fprintf(out, "{\"e\":\"Begin\",\"op\":\"Enable\",\"lo\":%u,\"hi\":%u", C.u & 0xffff, C.u >> 16); eol();
             api_call(false); flush_queue();
             emit_ret_common("Enable"); fprintf(out, ",\"ret\":%d", C.reti); emit_ret_end();
